@@ -51,6 +51,8 @@ def eval_bits(v, env):
     if k == 'local' or k == 'field':
         if v in env:
             return env[v]
+        if k == 'field' and v[2] == '0' and isinstance(v[1], tuple) and v[1] and v[1][0] == 'binop':
+            return eval_bits(v[1], env)          # .0 of a checked operation
         raise ValueError('free %s' % (v,))
     if k == 'cast':
         x = eval_bits(v[1], env)
